@@ -10,6 +10,7 @@ import Hdl21Model.Drv.C16
 import Hdl21Model.Drv.C19
 import Hdl21Model.Drv.C17
 import Hdl21Model.Drv.C15
+import Hdl21Model.Drv.PortRefs
 open Lean
 
 /-- Line protocol: one JSON object per input line `{"prop": "C03", "op": ..., ...}`,
@@ -30,6 +31,7 @@ def dispatch (j : Json) : Except String Json := do
   | "C19" => Hdl21.Drv.C19.handle op j
   | "C17" => Hdl21.Drv.C17.handle op j
   | "C15" => Hdl21.Drv.C15.handle op j
+  | "F2" => Hdl21.Drv.PortRefs.handle op j
   | "SEM" => Hdl21.Drv.Sem.handle op j
   | _ => .error s!"unknown prop {prop}"
 
